@@ -31,7 +31,7 @@ class Family:
     def noise(self, lab):
         return Noise(present=self.B(lab + '_p'), kind=self.I(lab + '_k', 0, 3), label=lab)
     def attrs(self, lab, n, pool=APOOL):
-        out = [Attr(self.S('%s_a%d' % (lab, i), pool[:max(n, 2)]), self.B('%s_a%d_p' % (lab, i)), value=self.S('%s_a%d_v' % (lab, i), ['v', 'w w'], register=False)) for i in range(n)]
+        out = [Attr(self.S('%s_a%d' % (lab, i), pool[:max(n, 2)] if pool is APOOL else list(pool)), self.B('%s_a%d_p' % (lab, i)), value=self.S('%s_a%d_v' % (lab, i), ['v', 'w w'], register=False)) for i in range(n)]
         for i in range(n):
             for j in range(i):
                 # well-formedness: attribute names of one start tag are distinct
